@@ -66,6 +66,15 @@ func (m *coreMon) check(op string, res string, cur *coreSnap) {
 			}
 		}
 	}
+	// ---- C07 rotation: the begin-blocker serves EVERY elapsed notice (chooses the successor and removes
+	// the queue entry); after a block has begun no queued notice time lies at or before the block time
+	if f[0] == "begin" && res == "ok" {
+		for _, e := range cur.Nq {
+			if e[0] <= cur.T {
+				m.violate("C07/rotation/elapsed-notice-left-in-queue", fmt.Sprintf("a%d's notice elapsed at %d, block time %d, entry still queued after BeginBlock", e[1], e[0], cur.T))
+			}
+		}
+	}
 	// ---- C06 custody
 	if !totTokens.Equal(cur.Mod) {
 		m.violate("C06/custody/module-balance-ne-sum-of-bonds", fmt.Sprintf("module %s, sum of tokens %s", cur.Mod, totTokens))
